@@ -93,13 +93,18 @@ def r_features(idx, rep, rule="R-FEATURES"):
                 if len(loops_) >= 2:
                     _early_exits(rep, rule, f, loops_[-1], pm, key)
     # ---- all rectangle vertices tested against the box
-    f = idx.func("distance3d.distance._box::_rectangle_points_in_box")
-    fors = [n for n in ast.walk(f.node) if isinstance(n, ast.For)]
-    pts = [st.targets[0].id for st in iter_stmts(f.node.body) if isinstance(st, ast.Assign) and isinstance(st.targets[0], ast.Name)
-           and isinstance(st.value, ast.Call) and (call_name(st.value) or "").endswith("convert_rectangle_to_vertices")]
-    pn_ = pts[0] if pts else "rectangle_points"
-    ok = len(fors) == 1 and u(fors[0].iter).replace(" ", "") in ("range(len(%s))" % pn_, pn_, "enumerate(%s)" % pn_)
-    rep.check(ok, rule, f.key + "|all rectangle vertices", f.where, "every vertex of the rectangle must be tested against the box")
+    # the function is found by what it does (turns the rectangle into vertices and measures points against the box), not by its private name
+    bm = idx.module("distance3d.distance._box")
+    cands = [g for g in bm.functions.values() if calls(g.node, "convert_rectangle_to_vertices") and calls(g.node, "point_to_box")]
+    if not cands:
+        rep.unknown(rule, "distance3d.distance._box|all rectangle vertices", bm.relpath, "no function of _box converts the rectangle to vertices and measures them against the box")
+    for f in cands[:1]:
+        fors = [n for n in ast.walk(f.node) if isinstance(n, ast.For)]
+        pts = [st.targets[0].id for st in iter_stmts(f.node.body) if isinstance(st, ast.Assign) and isinstance(st.targets[0], ast.Name)
+               and isinstance(st.value, ast.Call) and (call_name(st.value) or "").endswith("convert_rectangle_to_vertices")]
+        pn_ = pts[0] if pts else "rectangle_points"
+        ok = len(fors) == 1 and u(fors[0].iter).replace(" ", "") in ("range(len(%s))" % pn_, pn_, "enumerate(%s)" % pn_, "range(4)")
+        rep.check(ok, rule, "distance3d.distance._box|all rectangle vertices", f.where, "every vertex of the rectangle must be tested against the box")
     if n_tri < 2 or n_rect < 2 or n_box < 1:
         rep.error("R-FEATURES: expected >= 4 triangle-edge loops, >= 4 rectangle-edge sites and 1 box-face site; found %d / %d / %d" % (n_tri, n_rect, n_box))
 
